@@ -290,3 +290,8 @@ class Program(object):
             if not dependents.get(command.result_name)
         ):
             command.run()
+
+        # Commands that are only reachable through a reference cycle have no leaf; run them to report the recursion
+        for command in self.commands.values():
+            if not command.is_finished:
+                command.run()
